@@ -861,6 +861,10 @@ func ruleC01NoFollow(c *Checker) {
 	}
 	c.check(nrem > 0, R, uname, "link remover", p.Pos(U.Pos()), fmt.Sprintf("%d link-remover call(s) on the entry path", nrem),
 		"no call to a link-remover helper on the entry path found in Unpack: a later file or directory entry is written through an earlier symlink of the same name")
+	// the destination itself is not an entry the slug created: where the entry path equals dst
+	// (an entry named ./) following dst is following the caller's own destination
+	_, eqDst, _ := dstCompareEdges(p, u)
+	safe = append(safe, eqDst...)
 	isSafe := func(in ssa.Instruction) bool { return p.guardedC(in.Block(), safe) }
 
 	// calls (direct or through private helpers) that follow a link on the entry's own path
@@ -1159,9 +1163,85 @@ func ruleC01Replace(c *Checker) {
 		// by partial evaluation: the call is not reachable for the symlink kind
 		ki := getKinds(c, u)
 		reachSym := ki.Eval['2'] != nil && ki.Eval['2'].Calls[cl]
+		// ... and never to the destination itself: an entry whose name cleans to the root ("./", ".", "/")
+		// has Path == dst, and when dst is a symlink that link lives in dst's parent, outside the slug
+		differ, _, dstParam := dstCompareEdges(p, u)
+		notDst := false
+		if dstParam != nil {
+			notDst = guarded(cl.Block(), differ)
+			// or: the destination was resolved physically first, so it is not a link
+			for w := range p.backSlice(u.CtorCall.Call.Args[0], 0) {
+				if c2, ok := w.(*ssa.Call); ok && isFunc(calleeObj(c2), "path/filepath", "EvalSymlinks") {
+					notDst = true
+				}
+			}
+		}
+		c.check(notDst, R, p.FuncName(u.Unpack), "link remover not applied to the destination itself", p.Pos(cl.Pos()), "the remover call is past a test that the entry path differs from dst (or dst was resolved with EvalSymlinks)", "the link remover can be applied to dst itself: an entry named ./ (as written by tar -C dir .) has Path == dst, and when dst is a symlink to the real destination that link — which lives in dst's parent, outside the slug — is deleted and replaced by a new directory")
 		c.check(!reachSym, R, p.FuncName(u.Unpack), "link remover not applied to link entries", p.Pos(cl.Pos()), "under Typeflag = TypeSymlink the remover call is unreachable", "a symlink entry removes what is under its name before being created: a later link can replace an earlier one (or a recorded directory)")
 	}
 	c.check(n > 0, R, p.FuncName(u.Unpack), "removal sites", p.Pos(u.Unpack.Pos()), fmt.Sprintf("%d removal/remover site(s)", n), "no removal site found (the link remover is gone: see C01.nofollow)")
+}
+
+// dstCompareEdges: edges of string comparisons between the entry's path and
+// Unpack's destination parameter — those on which the two differ and those on
+// which they are equal.
+func dstCompareEdges(p *Prog, u *unpackCtx) (differ, equal []Edge, dstParam *ssa.Parameter) {
+	for _, ca := range u.CtorCall.Call.Args {
+		if prm, ok := canon(ca).(*ssa.Parameter); ok && prm.Parent() == u.Unpack && isStringType(prm.Type()) {
+			dstParam = prm
+		}
+	}
+	if dstParam == nil {
+		return
+	}
+	dep := func(v ssa.Value, want func(ssa.Value) bool) bool {
+		for w := range p.backSlice(v, 0) {
+			if want(w) {
+				return true
+			}
+		}
+		return false
+	}
+	isPath := func(w ssa.Value) bool {
+		switch x := w.(type) {
+		case *ssa.Field:
+			return fieldOf(x) == u.PathVar
+		case *ssa.FieldAddr:
+			return fieldOf(x) == u.PathVar
+		}
+		return false
+	}
+	isDst := func(w ssa.Value) bool { return w == ssa.Value(dstParam) }
+	tE, fE := condEdges(u.Unpack, func(v ssa.Value) bool {
+		bo, ok := v.(*ssa.BinOp)
+		if !ok || (bo.Op != token.NEQ && bo.Op != token.EQL) || !isStringType(bo.X.Type()) {
+			return false
+		}
+		return (dep(bo.X, isPath) && dep(bo.Y, isDst) && !dep(bo.Y, isPath)) || (dep(bo.Y, isPath) && dep(bo.X, isDst) && !dep(bo.X, isPath))
+	})
+	classify := func(es []Edge, onTrue bool) {
+		for _, e := range es {
+			ifi, ok := e.From.Instrs[len(e.From.Instrs)-1].(*ssa.If)
+			if !ok {
+				continue
+			}
+			cnd, neg := stripNot(ifi.Cond)
+			bo, ok := cnd.(*ssa.BinOp)
+			if !ok {
+				continue
+			}
+			isNeq := (bo.Op == token.NEQ) != neg
+			// on the true edge the (possibly negated) condition holds
+			if (isNeq && onTrue) || (!isNeq && !onTrue) {
+				differ = append(differ, e)
+			} else {
+				equal = append(equal, e)
+			}
+		}
+	}
+	classify(tE, true)
+	classify(fE, false)
+	return
 }
 
 // cellNonNilAt: block b is only reached over the non-nil edge of a test of a
